@@ -174,10 +174,10 @@ CLAIMS = {
   "delcols_work and the delete loops, and is compared field by field with the real arrays after every call; its free-space accounting is proved safe "
   "(see C17). The symbol table behind every name query (symtab.c: chained hash table, swap-with-last deletion, doubling rebuild, string pool with "
   "deferred compaction) is modelled as Qsx.Symtab and compared with the real table after every operation of direct sessions (entries, every chain "
-  "in chain order, capacities, pool counters); theorems symtab_history / symtab_lookup_history: for every history of registrations and deletions the "
+  "in chain order, capacities, pool counters); theorems symtab_history / symtab_lookup_history: for every history of registrations, deletions and renamings the "
   "hash structure stays consistent, the table holds exactly the list a four-line specification computes and a lookup returns the position of the "
   "name in that list. Partial: the abstraction theorem Store -> Spec (that the store represents the matrix Spec describes) is not proved, it is observed through both ties.",
-  COMMON_NOTE + "Duplicate indices inside one added row/column are not generated. In Spec names are a finite map; rename / index_reset of the symbol table are modelled and tied but not covered by the history theorem.",
+  COMMON_NOTE + "Duplicate indices inside one added row/column are not generated. In Spec names are a finite map; index_reset and the item-index field of the symbol table are modelled and tied but not covered by the history theorem.",
   "DESIGN.md C06", "Lean 4 reference model with proved guards + per-operation model/implementation correspondence check"),
  "C07": ("proof",
   "Lean theorems over the reference model: each call is rejected exactly outside the documented argument ranges (index in [0,count), known / new "
